@@ -210,6 +210,14 @@ def object_items(M: Model, e: ast.expr) -> dict | None:
             out["module"] = f
         elif (a is not None and _is_name(v, a)) or (isinstance(v, ast.Subscript) and M.is_A(v.value) and _is_name(v.slice, m)):
             out["alias"] = f
+    props = {}
+    for c in M.repo.mro(ci):
+        for name_, meth in c.methods.items():
+            if meth.is_property and name_ not in props:
+                body = [s_ for s_ in meth.node.body if not (isinstance(s_, ast.Expr) and isinstance(s_.value, ast.Constant))]
+                if len(body) == 1 and isinstance(body[0], ast.Return) and body[0].value is not None and meth.param_names:
+                    props[name_] = (meth.param_names[0], body[0].value)
+    out["props"] = props
     return out if out["module"] and out["alias"] else None
 
 
@@ -381,13 +389,39 @@ def _comp_of(M: Model, e: ast.expr):
     e2 = M.resolve(e) if not isinstance(e, (ast.GeneratorExp, ast.ListComp, ast.SetComp)) else e
     while isinstance(e2, ast.Call) and isinstance(e2.func, ast.Name) and e2.func.id in ("list", "tuple", "iter") and len(e2.args) == 1 and not e2.keywords:
         e2 = e2.args[0]
-    if isinstance(e2, ast.Call) and isinstance(e2.func, ast.Name) and e2.func.id == "filter" and len(e2.args) == 2 and isinstance(e2.args[0], ast.Lambda) and len(e2.args[0].args.args) == 1 and not e2.args[0].args.defaults:
-        var = e2.args[0].args.args[0].arg
-        return var, M.resolve(e2.args[1]), [M.resolve(e2.args[0].body, frozenset({var}))]
+    if isinstance(e2, ast.Call) and isinstance(e2.func, ast.Name) and e2.func.id == "filter" and len(e2.args) == 2:
+        pred = _predicate_as_lambda(M, e2.args[0])
+        if pred is not None:
+            var = pred.args.args[0].arg
+            return var, M.resolve(e2.args[1]), [M.resolve(pred.body, frozenset({var}))]
     if isinstance(e2, (ast.GeneratorExp, ast.ListComp, ast.SetComp)) and len(e2.generators) == 1:
         g = e2.generators[0]
         if isinstance(g.target, ast.Name) and isinstance(e2.elt, ast.Name) and e2.elt.id == g.target.id:
             return g.target.id, M.resolve(g.iter), [M.resolve(c, frozenset({g.target.id})) for c in g.ifs]
+    return None
+
+
+def _predicate_as_lambda(M: Model, pred: ast.expr) -> ast.Lambda | None:
+    """one-argument predicate given as a lambda, a bound method (`name.startswith`), a local closure or a repo function"""
+    if isinstance(pred, ast.Lambda):
+        return pred if len(pred.args.args) == 1 and not pred.args.defaults else None
+    mk = lambda body, p: ast.Lambda(args=ast.arguments(posonlyargs=[], args=[ast.arg(arg=p)], kwonlyargs=[], kw_defaults=[], defaults=[]), body=body)  # noqa: E731
+    if isinstance(pred, ast.Attribute) and pred.attr in ("startswith", "__eq__", "__contains__"):
+        p = "candidate__pred"
+        if pred.attr == "startswith":
+            return mk(ast.Call(func=pred, args=[ast.Name(id=p, ctx=ast.Load())], keywords=[]), p)
+        if pred.attr == "__eq__":
+            return mk(ast.Compare(left=pred.value, ops=[ast.Eq()], comparators=[ast.Name(id=p, ctx=ast.Load())]), p)
+    if isinstance(pred, ast.Name):
+        for n in ast.walk(M.fn):
+            if isinstance(n, ast.FunctionDef) and n is not M.fn and n.name == pred.id:
+                body = [s_ for s_ in n.body if not (isinstance(s_, ast.Expr) and isinstance(s_.value, ast.Constant))]
+                params = [a.arg for a in n.args.args]
+                if len(params) == 1 and len(body) == 1 and isinstance(body[0], ast.Return) and body[0].value is not None:
+                    return mk(body[0].value, params[0])
+                return None
+    if isinstance(pred, (ast.Name, ast.Attribute)):
+        return _function_as_lambda(M, pred)
     return None
 
 
@@ -501,20 +535,43 @@ def find_selection(M: Model, m_expr: ast.expr, ev: Event) -> Selection | str:
                     disc = "first" if _followed_by_break(M, ev.node, L) else "every"
                     return Selection(m, D, P, disc, L, L, [c[0] for c in M.cond_list(ev.node)] + [bs[0].value])
                 break
-    # (e) walk up the parents in a while loop:  m = n; while ...: <use m>; m = parent_of(m)
-    whiles = [w for w in M.loops_around(ev.node, whiles=True) if isinstance(w, ast.While)]
-    if len(bs) == 2 and all(b.kind == "assign" for b in bs) and whiles and ev.n is not None:
-        W = whiles[-1]
-        inside = [b for b in bs if any(x is W for x in M.loops_around(b.stmt, whiles=True))]
+    # (e) walk up the parents in a while loop:  m = n; while ...: <use m>; m = parent_of(m)      or
+    #     m = n; while m not in aliases: m = parent_of(m); if not m: <default>   else/afterwards: <use m>
+    if len(bs) == 2 and all(b.kind == "assign" for b in bs) and ev.n is not None:
+        inside = [b for b in bs if any(isinstance(x, ast.While) for x in M.loops_around(b.stmt, whiles=True))]
         outside = [b for b in bs if b not in inside]
-        if len(inside) == 1 and len(outside) == 1 and _is_name(M.resolve(outside[0].value), ev.n) and _parent_of(inside[0].value, m):
-            cs = [c for c in M.cond_list(ev.node) if id(c[0]) != id(W.test)]
-            outer = {id(c[0]) for c in M.cond_list(W)}
-            within = {id(x) for x in ast.walk(W)}
-            P = f_and([M.formula(e, pol) for e, pol in cs if id(e) not in outer and id(e) in within] + [M.formula(e, pol) for e, pol in ev.extra])
-            disc = "first" if _followed_by_break(M, ev.node, W) else "every"
-            return Selection(m, ast.Name(id=m, ctx=ast.Load()), P, disc, W, W, [c[0] for c in cs], known=("lineage", "near"))
+        if len(inside) == 1 and len(outside) == 1 and _is_name(M.resolve(outside[0].value), ev.n) and _parent_of(M.resolve(inside[0].value) if not _parent_of(inside[0].value, m) else inside[0].value, m):
+            W = [x for x in M.loops_around(inside[0].stmt, whiles=True) if isinstance(x, ast.While)][-1]
+            if any(x is W for x in M.loops_around(ev.node, whiles=True)):
+                cs = [c for c in M.cond_list(ev.node) if id(c[0]) != id(W.test)]
+                outer = {id(c[0]) for c in M.cond_list(W)}
+                within = {id(x) for x in ast.walk(W)}
+                P = f_and([M.formula(e, pol) for e, pol in cs if id(e) not in outer and id(e) in within] + [M.formula(e, pol) for e, pol in ev.extra])
+                disc = "first" if _followed_by_break(M, ev.node, W) else "every"
+                return Selection(m, ast.Name(id=m, ctx=ast.Load()), P, disc, W, W, [c[0] for c in cs], known=("lineage", "near"))
+            after = M.in_else_of(ev.node) is W or (not _own_breaks_of(W) and _follows(ev.node, W))
+            if after:
+                # the loop runs while the candidate does NOT match: what follows it sees the first candidate that does
+                P = f_not(M.formula(W.test))
+                return Selection(m, ast.Name(id=m, ctx=ast.Load()), P, "first", W, W, [W.test], known=("lineage", "near"))
     return f"how `{m}` is chosen among the aliased modules is not recognised"
+
+
+def _own_breaks_of(loop: ast.AST) -> bool:
+    from .c17_view import _own_breaks
+
+    return _own_breaks(loop)
+
+
+def _follows(node: ast.AST, loop: ast.AST) -> bool:
+    """`node` is (inside) a statement that comes after `loop` in the same block"""
+    p = parent(loop)
+    for fld in ("body", "orelse", "finalbody"):
+        blk = getattr(p, fld, None)
+        if isinstance(blk, list) and loop in blk:
+            later = blk[blk.index(loop) + 1:]
+            return any(any(x is node for x in ast.walk(st)) for st in later)
+    return False
 
 
 def _parent_of(e: ast.expr, m: str) -> bool:
@@ -555,6 +612,29 @@ def _spec_key(M: Model, key: ast.expr | None, items: bool) -> str | None:
             key = lam
     if isinstance(key, ast.Lambda) and len(key.args.args) == 1 and not key.args.defaults:
         p = key.args.args[0].arg
+
+        if isinstance(items, tuple) and len(items) > 2 and items[2] is not None:
+            # properties of the per-alias object (`alias.depth`) stand for their bodies
+            props = items[2]
+
+            class PX(ast.NodeTransformer):
+                def visit_Attribute(self, node):  # noqa: N802
+                    self.generic_visit(node)
+                    if isinstance(node.value, ast.Name) and node.value.id == p and node.attr in props:
+                        selfname, body = props[node.attr]
+
+                        class S(ast.NodeTransformer):
+                            def visit_Name(self, n2):  # noqa: N802
+                                return ast.Name(id=p, ctx=ast.Load()) if n2.id == selfname else n2
+
+                        from .c17_model import _copy_node
+
+                        return S().visit(_copy_node(body, keep=()))
+                    return node
+
+            from .c17_model import _copy_node as _cn
+
+            key = ast.Lambda(args=key.args, body=PX().visit(_cn(key.body, keep=())))
 
         def is_name_expr(e: ast.AST) -> bool:
             if isinstance(items, tuple):
@@ -655,7 +735,7 @@ def domain_order(M: Model, e: ast.expr, n: str, depth: int = 0) -> tuple[str | N
         d, _o = domain_order(M, e.args[0], n, depth + 1)
         if d == "objs":
             info = object_items(M, e.args[0])
-            return d, (_sorted_order(M, e.keywords, ("attr", info["module"])) if info and info.get("module") else None)
+            return d, (_sorted_order(M, e.keywords, ("attr", info["module"], info.get("props"))) if info and info.get("module") else None)
         if d in ("keys", "items"):
             return d, _sorted_order(M, e.keywords, d == "items")
         if d in ("lineage", "parents"):
